@@ -137,7 +137,8 @@ fn section_header_with_name<'sc>(
             log::warn!("invalid sh_name offset for {:?}", name);
             continue;
         }
-        if sh_name + name.len() as u64 >= strtab_section_header.sh_size {
+        // `name` includes its nul terminator, so it may end exactly at the end of the table.
+        if sh_name + name.len() as u64 > strtab_section_header.sh_size {
             // This can't be a match.
             continue;
         }
